@@ -1,15 +1,21 @@
 #!/usr/bin/env python3
-"""Runs quick checks against a property-PRESERVING change:  try_benign.py PATCH [ID ...]   (default: all 19)
+"""Runs quick checks against a property-PRESERVING change:  try_benign.py [--rev COMMIT] PATCH [ID ...]   (default: all 19)
 The patch is applied to a scratch clone of /repo (VERIF_REPO, VERIF_NO_EVIDENCE=1); /repo and the committed evidence are
 not touched. Prints one line per check; exit 0 iff no check raised a VIOLATION or failed (an alarm here is a FALSE alarm
 of the machinery unless the change turns out to break the property after all)."""
 import os, subprocess, sys, shutil, tempfile
-patch = os.path.abspath(sys.argv[1]); ids = sys.argv[2:] or ['C%02d' % i for i in range(1, 20)]
+args = sys.argv[1:]
+rev = None
+if '--rev' in args:
+    i = args.index('--rev'); rev = args[i + 1]; del args[i:i + 2]
+patch = os.path.abspath(args[0]); ids = args[1:] or ['C%02d' % i for i in range(1, 20)]
 base = tempfile.mkdtemp(prefix='benign.', dir='/var/tmp')
 clone = os.path.join(base, 'repo')
 bad = 0
 try:
     subprocess.run(['git', 'clone', '-q', '/repo', clone], check=True)
+    if rev:
+        subprocess.run(['git', '-C', clone, 'checkout', '-q', rev], check=True)
     ap = subprocess.run(['git', '-C', clone, 'apply', patch], capture_output=True, text=True)
     if ap.returncode != 0:
         sys.exit('patch does not apply: ' + ap.stderr[:300])
